@@ -125,6 +125,7 @@ Ltac callee_wf := cbv beta iota delta [wf nlstack]; discriminate.
 Ltac pre_solve :=
   cbv beta iota delta [peek_at hd nlstack toks lasttok];
   repeat match goal with E : next_token _ _ = _ |- _ => rewrite E end;
+  try split;
   first [ assumption
         | bool_hyps;
           first [ assumption | congruence | left; congruence | right; congruence
